@@ -33,31 +33,48 @@ LEVEL_TEXT = ('Partial. Coq theorems over hand models tied to the source by exac
               'modelled (vertex / edge-point / interior-point rows, compared with the implementation entry by entry), and the stored coordinate of every '
               'edge node is within delta(|X0-X2|+|X1-X2|) (+ delta\'|Xa-Xb| for the right element) of the affine image of its reference node, vertex and '
               'interior nodes exactly, where delta comes from the certificate that reference face nodes lie at the 1-D node parameters (evaluated in Coq over Q '
-              'for all orders 1..5 with and without bubble, tol 1e-14). Not proved: the single closed statement over the whole elevated mesh (it is the '
-              'composition of the proved pieces); binary64 rounding of the matrix products. '
-              'netCDF4 is not installed, so the '
-              'Exodus reader is executed against an in-memory stand-in for netCDF4.Dataset, not against real files.')
+              'for all orders 1..5 with and without bubble, tol 1e-14). '
+              '(6) THE WHOLE ELEVATED MESH in one closed statement (C13_elevated_mesh_affine / _certified / _shape): for every consistently oriented '
+              'triangulation with in-range rows and no degenerate side, every element t and every reference position pos, the id stored at elevated[t][pos] '
+              'is a node of the mesh and its stored coordinate em_coord (the stacked coordinate array computed from the function inputs only) is within '
+              'delta(|X0-X2|+|X1-X2|) + delta\'(|X0-X1|+|X1-X2|+|X2-X0|) of the affine image of reference node pos (exactly at vertex and interior positions); '
+              'one row per element, pe_n entries per row, every id 0..N-1 stored, vertex columns reproduce the simplex connectivity. All table hypotheses are '
+              'discharged by ONE computed certificate elev_cert_okb (soundness proved over Q -> R) evaluated in Coq on the implementation\'s tables for orders 2..5 '
+              'with and without bubble (delta = delta\' = 1e-14); the binary64 instance of the SAME definition em_coords is executed in Coq and compared with the '
+              'implementation\'s coordinate array entry by entry (4e-16 scale). Not proved: binary64 rounding of the two matrix products. '
+              '(7) READERS, whole file (C13_read_exodus_elements / _blocks / _nodesets / _sidesets / _simplex, C13_read_json_sidesets): for the model read_exodus of '
+              'read_exodus_mesh as a function of the file content (1-based block records, node-set records, (element, side) records, name records with empty names) '
+              'and every well-formed file: one mesh row per file row at block_first b + i holding the file row minus one (6-node rows in native order), all entries '
+              'node ids; under pairwise distinct final names every block is stored under its name as the range of its rows and the ranges in order are exactly '
+              '0..nE-1; every node set / side set is stored under its name with the same length, adding one gives back the file records (no member lost or merged), '
+              'members in range (node ids; element ids and sides 0..2). The distinct-names hypothesis is needed: C13_read_exodus_name_clash_refuted (a block named '
+              '\'block_2\' followed by an unnamed block) -- reproduced on the implementation, open finding C13-READ-NAMES. The whole-file model is compared with '
+              'the reader on in-memory files AND on the 8 real classic-netCDF Exodus files of the repository (6 of them, <= 2500 elements, also through Coq; all 8 '
+              'through the conclusion predicate). netCDF4 is not installed: the reader code runs unchanged on a stand-in for netCDF4.Dataset backed by '
+              'scipy.io.netcdf_file (real files) or by in-memory arrays; the 3 HDF5-based fixtures cannot be read here. Not modelled: the netCDF/JSON byte layer, '
+              'name decoding, block_maps and coordinates (tested only).')
 TECHNIQUE = 'Coq proof over hand models (nat/Z/list; coordinates over R in theorems) + vm_compute correspondence with exact integer comparison'
 GEN = []
-TARGETS = ['model/M_C13_Elevate.vo', 'model/M_C13_Coords.vo', 'proofs/L_C13_Elevate.vo', 'proofs/L_C13_Elev2.vo', 'proofs/L_C13_Elev3.vo', 'proofs/L_C13_Coords.vo', 'model/M_C13_Struct.vo', 'model/M_C13_Edges.vo', 'model/M_C13_Combine.vo', 'model/M_C13_Read.vo',
+TARGETS = ['model/M_C13_Elevate.vo', 'model/M_C13_Coords.vo', 'model/M_C13_ElevMesh.vo', 'proofs/L_C13_ElevMesh.vo', 'model/M_C13_ReadFile.vo', 'proofs/L_C13_ReadFile.vo', 'proofs/L_C13_Elevate.vo', 'proofs/L_C13_Elev2.vo', 'proofs/L_C13_Elev3.vo', 'proofs/L_C13_Coords.vo', 'model/M_C13_Struct.vo', 'model/M_C13_Edges.vo', 'model/M_C13_Combine.vo', 'model/M_C13_Read.vo',
            'proofs/L_C13_Struct.vo', 'proofs/L_C13_Edges.vo', 'proofs/L_C13_Combine.vo', 'proofs/L_C13_Read.vo', 'proofs/L_C13_Top.vo']
 COQ_FILES = ['base/Num.v', 'model/M_C13_Struct.v', 'model/M_C13_Edges.v', 'model/M_C13_Combine.v', 'model/M_C13_Read.v',
              'proofs/L_C13_Struct.v', 'proofs/L_C13_Edges.v', 'proofs/L_C13_Combine.v', 'proofs/L_C13_Read.v', 'proofs/L_C13_Top.v',
-             'model/M_C13_Elevate.v', 'model/M_C13_Coords.v', 'proofs/L_C13_Elevate.v', 'proofs/L_C13_Elev2.v', 'proofs/L_C13_Elev3.v', 'proofs/L_C13_Coords.v', 'props/P_C13.v']
+             'model/M_C13_Elevate.v', 'model/M_C13_Coords.v', 'proofs/L_C13_Elevate.v', 'proofs/L_C13_Elev2.v', 'proofs/L_C13_Elev3.v', 'proofs/L_C13_Coords.v', 'model/M_C13_ElevMesh.v', 'proofs/L_C13_ElevMesh.v', 'model/M_C13_ReadFile.v', 'proofs/L_C13_ReadFile.v', 'props/P_C13.v']
 TRUSTED = ['Coq 8.16.1 kernel + vm_compute (no native_compute)',
            'hand-written models coq/model/M_C13_*.v, tied by exact comparison of connectivity, edge tables, merged meshes and reader outputs',
            'harness: exact float -> rational conversion of coordinates, SciPy Delaunay as a generator of valid triangulations',
-           'in-memory stand-in for netCDF4.Dataset (the package is absent): the Exodus reader code runs unchanged on it, the binary file layer does not']
+           'stand-in for netCDF4.Dataset (the package is absent) backed by in-memory arrays or by scipy.io.netcdf_file for the real fixture files: the Exodus reader code runs unchanged on it, the netCDF4 C library does not']
 ASSUMPTIONS = ['np.linspace returns strictly increasing arrays for the extents used (checked exactly on every generated case)',
-               'order elevation: connectivity theorems are about the write-log model (functional array updates, last write wins); coordinates of elevated nodes are tested only',
-               'real Exodus files are not read in this sandbox (netCDF4 missing); ReadMesh.read_json_mesh is exercised on real files written by the harness',
+               'order elevation: connectivity theorems are about the write-log model (functional array updates, last write wins); coordinate theorems are over R, the binary64 instance of the same definition is compared with the implementation (rounding of np.dot not proved)',
+               'real Exodus files are read through scipy.io.netcdf_file instead of netCDF4 (classic / 64-bit-offset files only; byte order normalised to native as netCDF4 does); ReadMesh.read_json_mesh is exercised on real files written by the harness',
+               'reader theorems on blocks / sets assume pairwise distinct final names (needed: C13_read_exodus_name_clash_refuted, open finding C13-READ-NAMES)',
                'numpy/jax indexing, unique and concatenate behave as modelled (tied by the correspondence, not proved)']
 RULE = ('cases: structured sizes 2..7 x 2..7 with random extents; random Delaunay triangulations (6..30 points, optional hole, random cyclic '
         'rotation per element, occasionally one flipped element) through create_edges; random pairs of meshes with random block / node-set / '
         'side-set names (mostly clashing, some distinct) through combine_mesh; abstract Exodus descriptions (tri3/tri6, 1..3 blocks, named and unnamed sets) '
-        'and JSON files through the readers; elevation orders 2..5 with and without bubble (tests).  Non-trivial = at least 2 elements; '
+        'and JSON files through the readers, plus the 8 real classic-netCDF Exodus files of the repository (tests and examples); elevation orders 2..5 with and without bubble.  Non-trivial = at least 2 elements; '
         'distinct = distinct inputs')
-IMPORTS = ['From OV.model Require Import M_C13_Struct M_C13_Edges M_C13_Combine M_C13_Read M_C13_Elevate M_C13_Coords.']
+IMPORTS = ['From OV.model Require Import M_C13_Struct M_C13_Edges M_C13_Combine M_C13_Read M_C13_Elevate M_C13_Coords M_C13_ElevMesh.']
 NAMES = ['block_0', 'left', 'right', 'top', 'bottom', 'all', 'inner', 'b1', 'b2']
 
 
@@ -487,7 +504,10 @@ class _Dataset:
     store = {}
 
     def __init__(self, name, *a, **k):
-        self.dimensions, self.variables = _Dataset.store[name]
+        if name in _Dataset.store:
+            self.dimensions, self.variables = _Dataset.store[name]
+        else:
+            self.dimensions, self.variables = load_netcdf3(str(name))
 
     def __enter__(self):
         return self
@@ -497,6 +517,151 @@ class _Dataset:
 
     def __getitem__(self, key):
         return self.variables[key]
+
+
+def load_netcdf3(path):
+    """a REAL classic / 64-bit-offset netCDF file (Exodus II as written by most mesh generators) -> (dimensions, variables) of the
+    stand-in Dataset, through scipy.io.netcdf_file (netCDF4 / HDF5-based files cannot be read here)"""
+    import numpy as np
+    import scipy.io
+    f = scipy.io.netcdf_file(path, 'r', mmap=False)
+    dims = {k: _Dim(int(v) if v is not None else 0) for k, v in f.dimensions.items()}
+    var = {}
+    for k, v in f.variables.items():
+        attrs = {a: (b.decode() if isinstance(b, bytes) else b) for a, b in v._attributes.items()}
+        attrs.pop('masked', None)
+        data = np.array(v.data)
+        if data.dtype.byteorder == '>':          # netCDF-3 stores big-endian; the netCDF4 library hands out native-endian arrays
+            data = data.astype(data.dtype.newbyteorder('='))
+        var[k] = _Var(data.copy(), masked=k.startswith('coord'), **attrs)
+    f.close()
+    return dims, var
+
+
+REAL_EXODUS = ['optimism/test/patch_2_blocks.exo', 'optimism/test/patch_2_blocks.g', 'optimism/test/read_material_property_test.exo',
+               'examples/hemisphere_cap/hemisphere_axisym.g', 'examples/hemisphere_cap/hemi_fine.g',
+               'examples/tension_axisymmetric/CylindricalNotchTensionBar_R_1mm.g',
+               'examples/tension_axisymmetric/CylindricalSmoothBar_R_3_175mm_M2_b.g', 'examples/hole_array/hole_array.exo']
+
+
+def real_exodus_desc(path):
+    """abstract description of a real file, read INDEPENDENTLY of the reader under test (0-based, like exodus_case)"""
+    import numpy as np
+    dims, var = load_netcdf3(path)
+
+    def names(key, n):
+        rec = var[key].data if key in var else []
+        out = [b''.join(bytes(c) for c in row).split(b'\x00')[0].decode() for row in rec]
+        return (out + [''] * n)[:n]
+    nb = len(dims['num_el_blk'])
+    blocks = [(np.asarray(var['connect%d' % (i + 1)].data) - 1).tolist() for i in range(nb)]
+    nns = len(dims['num_node_sets']) if 'num_node_sets' in dims else 0
+    nss = len(dims['num_side_sets']) if 'num_side_sets' in dims else 0
+    nodesets = [(np.asarray(var['node_ns%d' % (i + 1)].data) - 1).tolist() for i in range(nns)]
+    sidesets = [list(zip((np.asarray(var['elem_ss%d' % (i + 1)].data) - 1).tolist(), (np.asarray(var['side_ss%d' % (i + 1)].data) - 1).tolist())) for i in range(nss)]
+    coords = np.column_stack([np.asarray(var['coordx'].data), np.asarray(var['coordy'].data)]).tolist()
+    six = len(blocks[0][0]) == 6
+    emap = np.asarray(var['elem_num_map'].data).tolist() if 'elem_num_map' in var else None
+    return dict(six=six, coords=coords, blocks=blocks, bnames=names('eb_names', nb), nodesets=nodesets, nsnames=names('ns_names', nns),
+                sidesets=sidesets, ssnames=names('ss_names', nss), emap=emap, file=path)
+
+
+class NameIds:
+    """names <-> ids of the reader model: the empty name is 0"""
+    def __init__(self):
+        self.tab = []
+
+    def id(self, name):
+        if name == '':
+            return 0
+        if name not in self.tab:
+            self.tab.append(name)
+        return 1 + self.tab.index(name)
+
+
+def exo_expr(desc, ids):
+    """Coq term: enc_rmesh of the whole-file reader model on the abstract description (1-based, as in the file)"""
+    one = lambda l: zl([i + 1 for i in l])
+    blocks1 = '[' + '; '.join('[' + '; '.join(one(row) for row in b) + ']' for b in desc['blocks']) + ']'
+    ns1 = '[' + '; '.join(one(s_) for s_ in desc['nodesets']) + ']'
+    ss1 = '[' + '; '.join('(%s, %s)' % (one([e for e, _ in s_]), one([q for _, q in s_])) for s_ in desc['sidesets']) + ']'
+    auto = lambda pre, n: zl([ids.id(pre + str(i + 1)) for i in range(n)])
+    return ('enc_rmesh (read_exodus %s (auto_of %s) (auto_of %s) (auto_of %s) (mk_exo %d %s %s %s %s %s %s))'
+            % ('true' if desc['six'] else 'false', auto('block_', len(desc['blocks'])), auto('nodeset_', len(desc['nodesets'])),
+               auto('sideset_', len(desc['sidesets'])), len(desc['coords']), blocks1, zl([ids.id(n) for n in desc['bnames']]),
+               ns1, zl([ids.id(n) for n in desc['nsnames']]), ss1, zl([ids.id(n) for n in desc['ssnames']])))
+
+
+def enc_read_mesh(mesh, ids):
+    """the implementation's mesh in the encoding of enc_rmesh (simplexNodesOrdinals last)"""
+    import numpy as np
+    conns = np.asarray(mesh.conns)
+    out = [int(conns.shape[0])] + [int(i) for i in conns.ravel()] + [-7]
+    for d, two in ((mesh.blocks, False), (mesh.nodeSets, False), (mesh.sideSets, True)):
+        out.append(len(d))
+        for k, v in d.items():
+            v = np.asarray(v)
+            out += [ids.id(k), int(v.shape[0])] + [int(x) for x in v.ravel()]
+        out.append(-7)
+    return out, sorted(int(x) for x in np.asarray(mesh.simplexNodesOrdinals).tolist())
+
+
+def exodus_no_loss(desc, mesh):
+    """conclusions of C13_read_exodus_elements / _blocks / _nodesets / _sidesets on the implementation's mesh"""
+    import numpy as np
+    bad = []
+    conns = np.asarray(mesh.conns).tolist()
+    flat = [row for b in desc['blocks'] for row in b]
+    n_, nE = len(desc['coords']), len(flat)
+    perm = [0, 3, 1, 5, 4, 2]
+    want = [[row[p_] for p_ in perm] for row in flat] if desc['six'] else flat
+    if len(conns) != nE:
+        bad.append('%d elements in the mesh, %d rows in the file (an element was lost)' % (len(conns), nE))
+    elif conns != want:
+        bad.append('connectivity is not the stacked file rows minus one%s' % (' in native 6-node order' if desc['six'] else ''))
+    if any(not 0 <= i < n_ for row in conns for i in row):
+        bad.append('connectivity refers to a node outside 0..%d' % (n_ - 1))
+    final = lambda names, pre: [nm if nm else pre + str(i + 1) for i, nm in enumerate(names)]
+    for kind, got, names, pre, vals, top in (('block', mesh.blocks, desc['bnames'], 'block_', None, nE),
+                                             ('node set', mesh.nodeSets, desc['nsnames'], 'nodeset_', desc['nodesets'], n_),
+                                             ('side set', mesh.sideSets, desc['ssnames'], 'sideset_', [[list(p_) for p_ in s_] for s_ in desc['sidesets']], nE)):
+        fn = final(names, pre)
+        if len(set(fn)) != len(fn):
+            continue        # equal final names: outside the theorems' hypothesis (C13_read_exodus_name_clash_refuted)
+        if list(got.keys()) != fn:
+            bad.append('%s names %r differ from the file (expected %r)' % (kind, list(got.keys()), fn)); continue
+        if kind == 'block':
+            first = 0
+            for b, k in zip(desc['blocks'], fn):
+                if np.asarray(got[k]).tolist() != list(range(first, first + len(b))):
+                    bad.append('block %r is not the range of its rows in the stacked table' % k); break
+                first += len(b)
+        else:
+            for v, k in zip(vals, fn):
+                g = np.asarray(got[k]).tolist()
+                if g != v:
+                    bad.append('%s %r: members differ from the file record minus one (%d in the file, %d read)' % (kind, k, len(v), len(g))); break
+                ids_ = [x[0] if kind == 'side set' else x for x in g]
+                if any(not 0 <= e < top for e in ids_) or (kind == 'side set' and any(not 0 <= x[1] < 3 for x in g)):
+                    bad.append('%s %r has a member out of range' % (kind, k)); break
+    return bad
+
+
+def exodus_name_clash_witness():
+    """C13_read_exodus_name_clash_refuted replayed on the implementation: a 3-node file with two one-element blocks, the first NAMED
+    'block_2' (the auto-generated name of the second), the second unnamed"""
+    import numpy as np
+    if not install_fake_netcdf():
+        return None
+    from optimism import ReadExodusMesh
+    dims = {'num_nodes': _Dim(4), 'num_dim': _Dim(2), 'num_el_blk': _Dim(2), 'num_nod_per_el1': _Dim(3), 'num_nod_per_el2': _Dim(3),
+            'num_el_in_blk1': _Dim(1), 'num_el_in_blk2': _Dim(1)}
+    var = {'coordx': _Var(np.array([0., 1., 1., 0.]), masked=True), 'coordy': _Var(np.array([0., 0., 1., 1.]), masked=True),
+           'eb_names': _Var(names_record(['block_2', ''])),
+           'connect1': _Var(np.array([[1, 2, 3]], dtype=np.int32), elem_type='TRI3'), 'connect2': _Var(np.array([[1, 3, 4]], dtype=np.int32), elem_type='TRI3')}
+    _Dataset.store['c13_name_clash'] = (dims, var)
+    mesh = ReadExodusMesh.read_exodus_mesh('c13_name_clash')
+    return dict(elements=int(np.asarray(mesh.conns).shape[0]), blocks={k: np.asarray(v).tolist() for k, v in mesh.blocks.items()})
 
 
 def install_fake_netcdf():
@@ -533,7 +698,7 @@ def exodus_case(r):
     blocks = [rows[a:b] for a, b in zip([0] + cut, cut + [len(rows)])]
     bnames = [r.choice(['', 'blk%d' % i]) for i in range(nb)]
     nns = r.randrange(0, 3)
-    nodesets = [sorted(r.sample(range(len(coords)), r.randrange(1, 4))) for _ in range(nns)]
+    nodesets = [r.sample(range(len(coords)), r.randrange(1, 6)) for _ in range(nns)]      # file order, NOT sorted (real files list nodes along a curve)
     nsnames = [r.choice(['', 'ns%d' % i]) for i in range(nns)]
     nss = r.randrange(0, 3)
     sidesets = [[(r.randrange(len(rows)), r.randrange(3)) for _ in range(r.randrange(1, 4))] for _ in range(nss)]
@@ -589,7 +754,7 @@ def part_readers(ctx, model_ok):
     exprs = ['map Z.of_nat exo2native', 'map Z.of_nat native_vertex', 'map Z.of_nat (concat native_faces)']
     # (b) Exodus reader on an in-memory dataset
     fake = install_fake_netcdf()
-    cases = []
+    cases, wexprs, wcases = [], [], []
     if fake:
         from optimism import ReadExodusMesh
         for i in range(ctx.n(15, 120)):
@@ -645,17 +810,56 @@ def part_readers(ctx, model_ok):
                 bad.append('side set members differ from the file (after 1-based -> 0-based)')
             if len(mesh.blocks) != len(desc['blocks']) or len(mesh.nodeSets) != len(desc['nodesets']) or len(mesh.sideSets) != len(desc['sidesets']):
                 bad.append('a block or set was lost (name clash of auto-generated names?)')
+            bad += exodus_no_loss(desc, mesh)
             for b in bad:
                 ctx.fail('conclusion', 'read_exodus_mesh: ' + b, case=case, concrete=True)
             blocks1 = '[' + '; '.join(zll([[i + 1 for i in row] for row in b]) for b in desc['blocks']) + ']'
             exprs.append('map Z.of_nat (concat (%s (read_conns (map (map (map Z.to_nat)) %s)))) ++ [(-7)] ++ '
                          'map Z.of_nat (concat (read_block_ranges (map (map (map Z.to_nat)) %s)))'
                          % ('map permute_tri6' if desc['six'] else 'id', blocks1, blocks1))
+            ids = NameIds()
+            wexprs.append(exo_expr(desc, ids))
+            wcases.append((desc, enc_read_mesh(mesh, ids), 'in-memory'))
+            ctx.count('exodus_tri6_files' if desc['six'] else 'exodus_tri3_files')
+            ctx.count('exodus_blocks', len(desc['blocks']))
+            ctx.count('exodus_unnamed_entities', sum(1 for nm in desc['bnames'] + desc['nsnames'] + desc['ssnames'] if not nm))
+            ctx.count('exodus_set_members', sum(len(x) for x in desc['nodesets']) + sum(len(x) for x in desc['sidesets']))
+        # (b') REAL Exodus files of the repository (classic netCDF), read by the unchanged reader code through the scipy-backed stand-in
+        for rel in REAL_EXODUS:
+            path = os.path.join(C.REPO, rel)
+            if not os.path.exists(path):
+                ctx.notes.append('exodus fixture %s is missing' % rel)
+                continue
+            desc = real_exodus_desc(path)
+            mesh = ReadExodusMesh.read_exodus_mesh(path)
+            ctx.count('evaluations')
+            ctx.count('exodus_real_files')
+            nE = sum(len(b) for b in desc['blocks'])
+            ctx.count('exodus_real_elements', nE)
+            ctx.count('exodus_set_members', sum(len(x) for x in desc['nodesets']) + sum(len(x) for x in desc['sidesets']))
+            bad = exodus_no_loss(desc, mesh)
+            if np.asarray(mesh.coords).tolist() != desc['coords']:
+                bad.append('coordinates differ from the file')
+            vcols = np.asarray(mesh.parentElement.vertexNodes).tolist()
+            cc = np.asarray(mesh.coords)
+            vr = np.asarray(mesh.conns)[:, vcols]
+            a2 = (cc[vr[:, 1], 0] - cc[vr[:, 0], 0]) * (cc[vr[:, 2], 1] - cc[vr[:, 0], 1]) - (cc[vr[:, 2], 0] - cc[vr[:, 0], 0]) * (cc[vr[:, 1], 1] - cc[vr[:, 0], 1])
+            if not (a2 > 0).all():
+                bad.append('%d elements are not counter-clockwise' % int((a2 <= 0).sum()))
+            if sorted(set(np.asarray(mesh.conns).ravel().tolist())) != list(range(len(desc['coords']))):
+                bad.append('connectivity does not use every node of the file')
+            for b in bad:
+                ctx.fail('conclusion', 'read_exodus_mesh(%s): %s' % (rel, b), case=dict(part='exodus_file', file=rel), concrete=True)
+            if nE <= 2500:
+                ids = NameIds()
+                wexprs.append(exo_expr(desc, ids))
+                wcases.append((dict(file=rel), enc_read_mesh(mesh, ids), rel))
     else:
         ctx.notes.append('a real netCDF4 is importable; the in-memory Exodus stream is skipped')
     # (c) JSON reader on real files
     workdir = os.path.join(C.RUN, 'c13_%d' % os.getpid())
     os.makedirs(workdir, exist_ok=True)
+    jexprs, jwant = [], []
     try:
         for i in range(ctx.n(6, 40)):
             pts, tris = delaunay_mesh(r, r.randrange(4, 12))
@@ -675,6 +879,12 @@ def part_readers(ctx, model_ok):
                 bad.append('side sets differ from the file')
             for b in bad:
                 ctx.fail('conclusion', 'read_json_mesh: ' + b, case=dict(part='json', conns=tris), concrete=True)
+            jids = NameIds()
+            jexprs.append('enc_dict_pairs (read_json_sidesets [%s])' % '; '.join(
+                '(%d, (zn %s, zn %s))' % (jids.id(k), zl(v[0]), zl(v[1])) for k, v in ss.items()))
+            jwant.append([len(mesh.sideSets)] + [x for k, v in mesh.sideSets.items()
+                                                 for x in [jids.id(k), int(np.asarray(v).shape[0])] + [int(y) for y in np.asarray(v).ravel()]])
+            ctx.count('json_files')
     finally:
         shutil.rmtree(workdir, ignore_errors=True)
     if not model_ok:
@@ -690,6 +900,22 @@ def part_readers(ctx, model_ok):
         cut = got.index(-7)
         if got[:cut] != [int(i) for i in np.asarray(mesh.conns).ravel()] or got[cut + 1:] != [int(x) for v in mesh.blocks.values() for x in np.asarray(v).tolist()]:
             ctx.fail('correspondence', 'read_exodus_mesh: model connectivity/block ranges differ from the implementation', case=dict(part='exodus', desc=desc))
+        ctx.count('model_vs_impl_comparisons')
+    # whole-file reader model (M_C13_ReadFile.read_exodus) against the implementation: connectivity, block / node-set / side-set
+    # dicts (names, order, members), simplexNodesOrdinals (as a set)
+    wres = C.coq_eval(['From OV.model Require Import M_C13_Combine M_C13_Read M_C13_ReadFile.'], wexprs + jexprs, 'C13f', shard=6, timeout=900)
+    for (desc, (want, wsimplex), tag), got in zip(wcases, wres):
+        cut = len(got) - 1 - got[::-1].index(-7)
+        if got[:cut + 1] != want or sorted(got[cut + 1:]) != wsimplex:
+            d = next((i for i, (a, b) in enumerate(zip(got, want)) if a != b), min(len(got), len(want)))
+            ctx.fail('correspondence', 'read_exodus_mesh (%s): the whole-file reader model differs from the implementation at encoded position %d (%r vs %r)%s'
+                     % (tag, d, got[d:d + 6], want[d:d + 6], '' if got[:cut + 1] != want else ' [simplexNodesOrdinals]'),
+                     case=dict(part='exodus', desc=desc))
+        ctx.count('model_vs_impl_comparisons')
+        ctx.count('whole_file_model_comparisons')
+    for want, got in zip(jwant, wres[len(wcases):]):
+        if got != want:
+            ctx.fail('correspondence', 'read_json_mesh: side sets of the model (%r) differ from the implementation (%r)' % (got[:12], want[:12]), case=dict(part='json'))
         ctx.count('model_vs_impl_comparisons')
 
 
@@ -709,7 +935,7 @@ def part_elevate(ctx, model_ok=False):
             c, t = Mesh.create_structured_mesh_data(r.randrange(2, 4), r.randrange(2, 4), [0., 1.], [0., 2.])
             pts, tris = np.asarray(c), np.asarray(t).tolist()
         todo.append((order, bubble, pts, tris))
-    exprs, slots, exprs2, full, done = [], [], [], [], []
+    exprs, slots, exprs2, full, done, exprs3, fullc = [], [], [], [], [], [], []
     for order, bubble, pts, tris in todo:
         base = Mesh.construct_mesh_from_basic_data(jnp.array(pts), jnp.array(tris, dtype=jnp.int64), {'b': jnp.arange(len(tris))},
                                                    None, {'s': jnp.array([[0, 0]])})
@@ -780,6 +1006,22 @@ def part_elevate(ctx, model_ok=False):
                                                   zl(faces[2][1:-1]), zl(np.asarray(pe.interiorNodes)))
         exprs2.append('enc_elevated %s %d %d %s' % (pe_term, len(pts), m1, zll(tris)))
         full.append([int(i) for i in conns.ravel()])
+        # closed statement (C13_elevated_mesh_affine) on the implementation's mesh: for EVERY (element, reference position) the stored
+        # coordinate is the affine image of the reference node within em_bound (delta = delta' = 1e-14) + binary64 rounding of the products
+        for t in range(len(tris)):
+            Xt = P[np.array(tris[t])]
+            img = ref[:, [0]] * Xt[0] + ref[:, [1]] * Xt[1] + (1 - ref[:, [0]] - ref[:, [1]]) * Xt[2]
+            bnd = 1e-14 * (np.abs(Xt[0] - Xt[2]) + np.abs(Xt[1] - Xt[2])) + 1e-14 * (np.abs(Xt[0] - Xt[1]) + np.abs(Xt[1] - Xt[2]) + np.abs(Xt[2] - Xt[0])) \
+                + 2e-15 * max(1.0, np.abs(P).max())
+            if conns[t].max() >= n or (np.abs(coords[conns[t]] - img) > bnd).any():
+                bad.append('element %d: a node is out of range or farther from the affine image of its reference node than the proved bound' % t); break
+        ctx.count('closed_statement_entries', int(conns.size))
+        # binary64 execution of the SAME coordinate definition the closed theorem is about (em_coords), both components
+        refl = '[' + '; '.join('(%s, %s)' % (C.cf(float(x)), C.cf(float(y))) for x, y in ref.tolist()) + ']'
+        s1l = '[' + '; '.join(C.cf(float(x)) for x in s1.tolist()) + ']'
+        for comp in (0, 1):
+            exprs3.append('enc_em_coords [%s] %s %s %s %d %s' % ('; '.join(C.cf(float(x)) for x in P[:, comp].tolist()), s1l, refl, pe_term, m1, zll(tris)))
+        fullc.append((coords, nV_, len(ec) * m1))
         for b in bad:
             ctx.fail('conclusion', 'order elevation (order %d%s, %d elements): %s' % (order, ' bubble' if bubble else '', len(tris), b),
                      case=dict(part='elevate', order=order, bubble=bubble, coords=np.asarray(pts).tolist(), conns=tris), concrete=True)
@@ -803,6 +1045,14 @@ def part_elevate(ctx, model_ok=False):
                                   % ('; '.join('(%s, %s)' % (qq(x), qq(y)) for x, y in refc), zl(np.asarray(el.vertexNodes)), zl(fc[0][1:-1]), zl(fc[1][1:-1]), zl(fc[2][1:-1]),
                                      '; '.join(qq(x) for x in s1d)))
                     cnames.append('reference element order %d%s: vertex positions at the unit points, face nodes at the 1-D node parameters of their side (1e-14)' % (order, ' bubble' if bub else ''))
+                if order >= 2:
+                    # ONE certificate for all table hypotheses of C13_elevated_mesh_certified (soundness proved: elevated_mesh_certified)
+                    cexprs.append('elev_cert (mk_pe %d %s %s %s %s %s) %d [%s] %s [%s] %s (1 # 100000000000000)'
+                                  % (int(refc.shape[0]), zl(np.asarray(el.vertexNodes)), zl(fc[0][np.asarray(e1.interiorNodes)]), zl(fc[1][np.asarray(e1.interiorNodes)]),
+                                     zl(fc[2][np.asarray(e1.interiorNodes)]), zl(np.asarray(el.interiorNodes)), order - 1,
+                                     '; '.join('(%s, %s)' % (qq(x), qq(y)) for x, y in refc), zll(fc.tolist()),
+                                     '; '.join(qq(x) for x in np.asarray(e1.coordinates)), zl(np.asarray(e1.interiorNodes))))
+                    cnames.append('reference element order %d%s: combined certificate elev_cert_okb of the closed elevated-mesh theorem (1e-14)' % (order, ' bubble' if bub else ''))
             xn = [Fraction(float(x)) for x in np.asarray(Interpolants.get_lobatto_nodes_1d(order))]
             cexprs.append('lobatto_sym_cert [%s] (1 # 100000000000000)' % '; '.join('(%d # %d)' % (q.numerator, q.denominator) for q in xn))
             cnames.append('Lobatto nodes of degree %d are symmetric about 1/2 within 1e-14' % order)
@@ -818,6 +1068,25 @@ def part_elevate(ctx, model_ok=False):
             if got != want:
                 ctx.fail('correspondence', 'order elevation (order %d%s): the ids in the (edge,k)/(element,k) slots differ from the model numbering'
                          % (order, ' bubble' if bubble else ''), case=dict(part='elevate', order=order, bubble=bubble, conns=tris))
+            ctx.count('model_vs_impl_comparisons')
+        res3 = C.coq_eval(IMPORTS, exprs3, 'C13x', shard=8, timeout=600)
+        for k, ((order, bubble, pts, tris), (coords, nv_, ne_)) in enumerate(zip(todo, fullc)):
+            scale = 4e-16 * max(1.0, float(np.abs(np.asarray(pts)).max()))
+            for comp in (0, 1):
+                got = C.dec_floats(res3[2 * k + comp])
+                case = dict(part='elevate', order=order, bubble=bubble, coords=np.asarray(pts).tolist(), conns=tris, component=comp)
+                if len(got) != coords.shape[0]:
+                    ctx.fail('correspondence', 'order elevation (order %d%s): the coordinate model has %d nodes, the implementation %d'
+                             % (order, ' bubble' if bubble else '', len(got), coords.shape[0]), case=case)
+                    continue
+                d = [i for i, (a, b) in enumerate(zip(got, coords[:, comp].tolist())) if not abs(a - b) <= scale]
+                if d:
+                    ctx.fail('correspondence', 'order elevation (order %d%s): coordinate %d of node %d is %r in the implementation, %r in the model em_coords (%s row)'
+                             % (order, ' bubble' if bubble else '', comp, d[0], float(coords[d[0], comp]), got[d[0]],
+                                'vertex' if d[0] < nv_ else 'edge' if d[0] < nv_ + ne_ else 'interior'), case=case)
+                ctx.count('em_coords_vertex_rows', nv_)
+                ctx.count('em_coords_edge_rows', ne_)
+                ctx.count('em_coords_interior_rows', coords.shape[0] - nv_ - ne_)
             ctx.count('model_vs_impl_comparisons')
         res2 = C.coq_eval(IMPORTS, exprs2, 'C13w', shard=4, timeout=900)
         for (order, bubble, pts, tris), want, got in zip(todo, full, res2):
@@ -1063,7 +1332,7 @@ def correspondence(ctx, model_ok):
     part_readers(ctx, model_ok)
     part_elevate(ctx, model_ok)
     part_purity(ctx)
-    ctx.cov['parts'] = ['structured', 'edges', 'combine', 'readers(exodus in-memory, json files)', 'elevation (tests only)', 'purity/aliasing/histories (combine, elevate incl. node-set flags, mesh_with_*, create_edges, reader re-reads)']
+    ctx.cov['parts'] = ['structured', 'edges', 'combine', 'readers(exodus in-memory, json files)', 'elevation (write-log connectivity model, binary64 coordinate model, certificates)', 'purity/aliasing/histories (combine, elevate incl. node-set flags, mesh_with_*, create_edges, reader re-reads)']
 
 
 def search(ctx, reasons):
@@ -1082,6 +1351,8 @@ def search(ctx, reasons):
 
 def matches_finding(fl, f):
     c = fl.get('case') or {}
+    if f['id'] == 'C13-READ-NAMES':
+        return False          # no stream generates equal final names; the witness is replayed by finding_fails only
     if f['id'] == 'F8':
         return (c.get('part') == 'combine' and c.get('clause') == 'lost' and bool(c.get('name_in_both')) and c.get('from_mesh') == 1
                 and bool(c.get('merged_equals_second_only')))
@@ -1091,6 +1362,11 @@ def matches_finding(fl, f):
 def finding_fails(ctx, f):
     import copy
     import optimism  # noqa: F401
+    if f['id'] == 'C13-READ-NAMES':
+        w = exodus_name_clash_witness()
+        ctx.cov['read_exodus_name_clash_replay'] = w
+        # the model's prediction (C13_read_exodus_name_clash_refuted): two elements, ONE block entry 'block_2' = [1]; element 0 in no block
+        return w is not None and w['elements'] == 2 and w['blocks'] == {'block_2': [1]}
     c2 = copy.copy(ctx)
     c2.failures, c2.counts = [], {}
     run_combine(c2, [tuple(F8_WITNESS)], False, 'k')
@@ -1124,6 +1400,11 @@ def replay(ctx, path):
         run_combine(ctx, [(case['mesh1'], case['mesh2'])], False, 'r')
         known = [f for f in C.load_known_findings() if f['property'] == ID and f['status'] == 'open']
         bad = [fl['what'] for fl in ctx.failures if not any(matches_finding(fl, f) for f in known)]
+    elif part == 'exodus_file':
+        install_fake_netcdf()
+        from optimism import ReadExodusMesh
+        path = os.path.join(C.REPO, case['file'])
+        bad = exodus_no_loss(real_exodus_desc(path), ReadExodusMesh.read_exodus_mesh(path))
     elif part == 'purity':
         bad = purity_case(case)
     elif part == 'combine' and 'mesh3' in case:
